@@ -17,6 +17,12 @@ import (
 // freeVarIdent resolves name as a captured variable; nil if it is none.
 func (e *Env) freeVarIdent(name string) SV {
 	vc := e.vc
+	if e.fvTerms != nil { // captproj.go (x-c17)
+		if v, ok := e.fvTerms[name]; ok {
+			return v
+		}
+		return nil
+	}
 	if e.fvBind != nil {
 		if b, ok := e.fvBind[name]; ok {
 			pv := vc.val(b)
